@@ -88,6 +88,47 @@ fn describe_pending(out: &Outcome) -> String {
     v.join("; ")
 }
 
+/// Recognises one specific genuine defect (known finding) so that every *other* way of stalling is still reported:
+/// an endpoint's Handshake-space CRYPTO data is declared lost while its congestion window is full of 1-RTT packets the
+/// peer cannot process yet; the retransmission is blocked by the window, nothing is in flight in the Handshake space
+/// (no PTO), the application space has no PTO before the handshake is confirmed: silence until the idle timeout.
+fn handshake_crypto_blocked(out: &Outcome) -> Option<String> {
+    use crate::rec::{Ev, Space};
+    use std::collections::HashMap;
+    // (ep, conn) -> (time of the loss, limited at that moment)
+    let mut lost_at: HashMap<(usize, u64), u64> = HashMap::new();
+    let mut limited: HashMap<(usize, u64), bool> = HashMap::new();
+    let mut confirmed: HashMap<(usize, u64), bool> = HashMap::new();
+    let mut idle_closed: HashMap<(usize, u64), bool> = HashMap::new();
+    for r in &out.recs {
+        let k = (r.ep, r.conn);
+        match &r.ev {
+            Ev::Metrics { congestion_limited, .. } => {
+                limited.insert(k, *congestion_limited);
+            }
+            Ev::PacketLost { space: Space::Handshake, bytes, .. } if *bytes > 0 && limited.get(&k).copied().unwrap_or(false) => {
+                lost_at.entry(k).or_insert(r.t_us);
+            }
+            // any later congestion-controlled Handshake packet means the retransmission did go out
+            Ev::PacketSent { space: Space::Handshake, len, .. } if *len > 100 => {
+                lost_at.remove(&k);
+            }
+            Ev::HandshakeConfirmed => {
+                confirmed.insert(k, true);
+            }
+            Ev::Closed(kind) => {
+                idle_closed.insert(k, format!("{kind:?}").contains("IdleTimerExpired"));
+            }
+            _ => {}
+        }
+    }
+    let mut hits: Vec<_> = lost_at.iter().filter(|(k, _)| !confirmed.contains_key(k) && idle_closed.get(k).copied().unwrap_or(false)).collect();
+    hits.sort();
+    hits.first().map(|((ep, conn), t)| {
+        format!("endpoint {ep} conn {conn}: Handshake CRYPTO data declared lost at t={t}us while the congestion window was full of 1-RTT data; it was never retransmitted and the connection idled out")
+    })
+}
+
 // ---------------------------------------------------------------------------------------
 // family 1: finite fault prefix, then a clean network for ever
 
@@ -115,6 +156,14 @@ pub fn oracle_finite(sc: &Scenario, obs: &mut Obs) -> CaseResult {
     }));
     if !judged {
         return Ok(());
+    }
+    // (0) the known handshake deadlock (see known_findings.json): recognised by its own signature
+    if let Some(what) = handshake_crypto_blocked(&out) {
+        let key = "c02:handshake-crypto-retransmission-blocked-by-congestion-window";
+        if obs.step_over_known(key) {
+            return Ok(());
+        }
+        return Err(Fail::new(key, format!("network clean since t={}ms (idle timeout {}ms): {what}", heal / 1000, min_idle)));
     }
     // (1) nothing may still be pending when the (generous) cap is hit
     if out.capped {
@@ -333,6 +382,7 @@ fn enum_base() -> Scenario {
         rebinds: vec![],
         attacks: vec![],
         evil: None,
+        tp: None,
     }
 }
 
